@@ -188,7 +188,7 @@ func TestBoundedC09GslbReload(t *testing.T) {
 	maxSteps := 3
 	masks := []int{-1, 0, 1, 2, 3}
 	if os.Getenv("GOVC_BOUNDED_TIER") == "thorough" {
-		masks = []int{-1, 0, 1, 2, 3, 5, 7} // a third backend per sub-cluster (some of its subsets)
+		masks = []int{-1, 0, 1, 2, 3, 7} // a third backend per sub-cluster (all three together)
 	}
 	cases, distinct, nfail, samples := 0, 0, 0, 0
 	var rec func(steps []bc09Step)
